@@ -133,8 +133,8 @@ func FindAnchors(prog *Program) *Anchors {
 				rs.Params().Len() == 2 && isEmptyIface(rs.Params().At(0).Type()) && namedIs(rs.Params().At(1).Type(), "reflect", "Value") && rs.Results().Len() == 1 && isBool(rs.Results().At(0).Type()) {
 				a.EqTable = f
 			}
-		case sig.Params().Len() == 2 && namedIs(p0, grammarPath, "MatchExpression") && namedIs(sig.Params().At(1).Type(), "reflect", "Kind") &&
-			sig.Results().Len() == 2 && isEmptyIface(sig.Results().At(0).Type()) && isErrorType(sig.Results().At(1).Type()):
+		case sig.Params().Len() == 2 && coerceTabParams(sig) && sig.Results().Len() == 2 && isEmptyIface(sig.Results().At(0).Type()) && isErrorType(sig.Results().At(1).Type()):
+			// (the literal — as the match expression or as its MatchValue — and the kind, in either order)
 			if a.CoerceTab == nil {
 				a.CoerceTab = f
 			}
@@ -379,4 +379,56 @@ func argsCarry(args []*Sym, k *Sym) bool {
 		}
 	}
 	return false
+}
+
+// coerceTabParams: one parameter is a reflect.Kind, the other a *grammar.MatchExpression or a *grammar.MatchValue.
+func coerceTabParams(sig *types.Signature) bool {
+	k, l := -1, -1
+	for i := 0; i < sig.Params().Len(); i++ {
+		t := sig.Params().At(i).Type()
+		switch {
+		case namedIs(t, "reflect", "Kind"):
+			k = i
+		case namedIs(t, grammarPath, "MatchExpression"), namedIs(t, grammarPath, "MatchValue"):
+			l = i
+		}
+	}
+	return k >= 0 && l >= 0
+}
+
+// coerceTabRoles: the positions of the kind and of the literal among the coercion table's parameters, and whether the
+// literal is passed as the whole match expression (its Value field is the literal) or as the MatchValue itself.
+func (a *Anchors) coerceTabRoles() (kindIdx, litIdx int, viaExpr bool) {
+	sig := a.CoerceTab.Signature
+	for i := 0; i < sig.Params().Len(); i++ {
+		t := sig.Params().At(i).Type()
+		switch {
+		case namedIs(t, "reflect", "Kind"):
+			kindIdx = i
+		case namedIs(t, grammarPath, "MatchExpression"):
+			litIdx, viaExpr = i, true
+		case namedIs(t, grammarPath, "MatchValue"):
+			litIdx, viaExpr = i, false
+		}
+	}
+	return
+}
+
+// coerceLiteral: the symbol of the *MatchValue the coercion table reads, and of the kind it is asked for.
+func (a *Anchors) coerceLiteral() (lit, kind *Sym) {
+	ki, li, via := a.coerceTabRoles()
+	p := paramSym(a.CoerceTab.Params[li])
+	if via {
+		return loadField(p, "Value"), paramSym(a.CoerceTab.Params[ki])
+	}
+	return p, paramSym(a.CoerceTab.Params[ki])
+}
+
+// coerceKindArg: the kind argument of a call to the coercion table.
+func (a *Anchors) coerceKindArg(args []*Sym) *Sym {
+	ki, _, _ := a.coerceTabRoles()
+	if ki < len(args) {
+		return args[ki]
+	}
+	return nil
 }
